@@ -9,7 +9,7 @@ with tempfile.TemporaryDirectory() as d:
     xml = os.path.join(d, "r.xml")
     env = dict(os.environ)
     env.pop("COCOASM_VERIF", None)
-    subprocess.run("cd /repo && /venv/bin/python -m pytest -ra -q -p no:cacheprovider --timeout=900 "
+    subprocess.run("cd " + os.environ.get("VERIF_REPO", "/repo") + " && /venv/bin/python -m pytest -ra -q -p no:cacheprovider --timeout=900 "
                    "--continue-on-collection-errors --junitxml=%s" % xml, shell=True, env=env,
                    stdout=subprocess.DEVNULL, stderr=subprocess.DEVNULL)
     passed = set()
